@@ -97,7 +97,7 @@ def run(repo, rep, rules=None):
     it.concrete_context = True
     it.max_while = 4000
     it.eager_generators = {f.name for f in m.funcs.values()} | {f.name for f in repo.module('utils').funcs.values()}
-    stats = {k: [0, []] for k in ('pieces', 'nonempty', 'escaping', 'quotes', 'display')}
+    stats = {k: [0, []] for k in ('pieces', 'nonempty', 'escaping', 'quotes', 'display', 'terminates')}
     und = []
 
     def call(name, args, kw=None):
@@ -140,7 +140,9 @@ def run(repo, rep, rules=None):
         except LoopLimit as e:
             # a concrete text and a loop bound far above its length: the splitter makes no progress
             stats['pieces'][1].append('str_to_lines(%d, %r, %s) does not terminate (%s): pformat of such a value hangs' % (w, qq, show(s), e))
+            stats['terminates'][1].append(stats['pieces'][1][-1])
             return None
+        stats['terminates'][0] += 1
         empty = s[:0]
         joined = empty.join(pieces) if all(type(p) is type(s) for p in pieces) else None
         if joined == s:
@@ -210,11 +212,11 @@ def run(repo, rep, rules=None):
                             und.append('%s (value %s)' % (e, show(s)))
     it.max_while = 4000
     for T, where_ in beyond.items():
-        rep.undecided(rules.get('pieces', 'C02.b'), 'string-model-scale', fs['str_to_lines'].where,
+        rep.undecided(list(rules.values())[0], 'string-model-scale', fs['str_to_lines'].where,
                       'the splitter decides on the size constant %d (%s): no scenario of the model is that large' % (T, where_[0]))
     names = {'pieces': 'pieces-concatenate-to-the-value', 'nonempty': 'no-empty-piece', 'escaping': 'escaped-text-evaluates-back',
-             'quotes': 'quote-is-a-quote-character', 'display': 'displayed-literal-evaluates-back'}
-    floors = {'pieces': 300, 'nonempty': 300, 'escaping': 100, 'quotes': 30, 'display': 50}
+             'quotes': 'quote-is-a-quote-character', 'display': 'displayed-literal-evaluates-back', 'terminates': 'splitter-terminates'}
+    floors = {'pieces': 300, 'nonempty': 300, 'escaping': 100, 'quotes': 30, 'display': 50, 'terminates': 300}
     n = 0
     where = fs['str_to_lines'].where
     for k, rule in rules.items():
@@ -227,7 +229,7 @@ def run(repo, rep, rules=None):
             rep.check(okc >= floors[k] or bool(und), rule, names[k], where, 'held on %d interpreted cases' % okc, 'only %d cases could be compared' % okc, nontrivial=True)
     for u in und:
         n += 1
-        rep.undecided(rules.get('pieces', 'C02.b'), 'string-model-interpretable', where, u)
+        rep.undecided(list(rules.values())[0], 'string-model-interpretable', where, u)
     rep.count(sum(v[0] for v in stats.values()))
     return n
 
